@@ -236,3 +236,30 @@ pub fn hostile(r: &mut Rng) -> String {
         _ => format!("-0{}", *r.pick(&["", ".0", "e0", "e-5", ".000", "E+10", ".0e0", "0"])),
     }
 }
+
+/// Number-shaped tokens built for the block-wise number skipper: `n` integer digits followed by a
+/// well-formed or malformed tail, so that the `.` / `e` / sign lands on every lane of a 32-byte
+/// block as `n` varies. Returns (token, is_valid_json_number).
+pub const SHAPE_TAILS: &[&str] = &["", ".", ".5", ".e5", "e", "e5", "e+", "e+5", "E-", ".5e", ".5e-", ".5e-3", "..5", ".5.5", "e5e5", "-", "+1", ".-5", "e.5", ".5E+07", "x"];
+
+pub fn number_shape(n: usize, tail: usize, neg: bool, frac_digits: usize) -> String {
+    let mut s = String::new();
+    if neg {
+        s.push('-');
+    }
+    for i in 0..n {
+        s.push((b'1' + (i % 9) as u8) as char);
+    }
+    let t = SHAPE_TAILS[tail % SHAPE_TAILS.len()];
+    // stretch the fraction so the exponent marker also moves across lanes
+    if frac_digits > 0 && t.starts_with(".5") {
+        s.push_str(".5");
+        for i in 0..frac_digits {
+            s.push((b'0' + (i % 10) as u8) as char);
+        }
+        s.push_str(&t[2..]);
+    } else {
+        s.push_str(t);
+    }
+    s
+}
